@@ -86,6 +86,12 @@ def list_text(lst, code):
             toks.append(othercat)
         elif t == "unknown":
             toks.append("FOO1")
+        elif t == "prefix":
+            toks.append(code[:-1])
+        elif t == "catprefix":
+            toks.append(cat[:-1])
+        elif t == "longer":
+            toks.append(code + "1")
         elif t == "text":
             tail = " because of reasons"
         elif t == "text_exact":
